@@ -1242,15 +1242,21 @@ def gate_stress(run, prop, n, check_n=False, test="^TestGateStress$", fname="gat
     tp = os.path.join(out, fname)
     rows = vlib.read_ndjson(tp)
     stats = {"histories": n, "events": len(rows), "acquires": 0, "refusals": 0, "completions": 0, "limit_changes": 0, "samples_seen": 0}
+    # the sequential probes after a phase of limit updates racing completions carry no in-flight samples
+    probes = {x["trace"] for x in rows if x["t"] == "reset" and str(x.get("kind", "")).endswith("/after-updates")}
+    unsampled = 0
     for x in rows:
         if x["t"] == "b":
             stats[{"acq": "acquires", "rel": "completions", "set": "limit_changes"}[x["kind"]]] += 1
+            if x["kind"] == "acq" and x["trace"] in probes:
+                unsampled += 1
         if x["t"] == "e" and not x["ok"]:
             stats["refusals"] += 1
         if x["t"] == "e" and x.get("n", -1) >= 0:
             stats["samples_seen"] += 1
+    stats["probe_histories_after_concurrent_limit_updates"] = len(probes)
     run.extra[what] = stats
-    if what == "stress" and (stats["refusals"] == 0 or stats["limit_changes"] == 0 or (check_n and stats["samples_seen"] < stats["acquires"])):
+    if what == "stress" and (stats["refusals"] == 0 or stats["limit_changes"] == 0 or (check_n and stats["samples_seen"] < stats["acquires"] - unsampled)):
         raise Machinery("stress histories are vacuous: %s" % stats)
     if stats["acquires"] < 100:
         raise Machinery("%s histories are vacuous: %s" % (what, stats))
